@@ -189,6 +189,7 @@ def cli_redundancy_standin():
                 prog = "type Flags = {\n    a: bool\n    b: bool\n}\nfn f(x: Flags) -> int {\n%s}\nprintln(f(Flags(true, false)))\n" % body
             cases.append((prog, any_red, (k1, a1, k2, a2)))
     mism = []
+    n_reported = 0
     for prog, any_red, key in cases:
         out, err, rc = abra_cli.run_program(prog)
         txt = re.sub(r'\x1b\[[0-9;]*m', '', out + err)
@@ -196,14 +197,19 @@ def cli_redundancy_standin():
             mism.append("compiler panic on %r" % (key,))
         else:
             reported = "redundant cases" in txt
+            n_reported += 1 if reported else 0
             if reported != any_red:
                 mism.append("%s: arms %s then %s: the compiler %s a redundant arm, the value model says %s" % (
                     "tuple" if key[0] == "tuple" else "record", spell[key[0]](*key[1]), spell[key[2]](*key[3]),
                     "reports" if reported else "does not report", "there is one" if any_red else "every arm is reachable"))
         if len(mism) >= 6:
             break
+    status, detail = (E.FAILED if mism else E.DISCHARGED), "; ".join(mism[:4])
+    if mism and n_reported == 0:
+        # not one match is reported redundant: the diagnostic's wording is no longer recognised -> cannot judge (never an alarm)
+        status, detail = E.UNDECIDED, "no program produced the text `redundant cases`: diagnostic wording not recognised"
     return E.Obligation("C13.cli.redundancy.sampled", ["C13"], UNIT, "match redundancy check (whole checker) via the real CLI", "bounded: run on the real CLI",
-                        E.FAILED if mism else E.DISCHARGED, "; ".join(mism[:4]), time.time() - t0, "abra_core/src/statics/pat_exhaustiveness.rs", "",
+                        status, detail, time.time() - t0, "abra_core/src/statics/pat_exhaustiveness.rs", "",
                         "%d matches: two free arms over {true, false, _}^2 + a catch-all, scrutinee a two-bool record (named patterns in both field "
                         "orders, positional) or a (bool, bool) tuple; black-box stand-in, not a proof" % len(cases),
                         "the compiler reports redundant cases iff some arm matches no value that is not already matched by an earlier arm (four-value model)")
